@@ -116,7 +116,7 @@ static const size_t kSizesHuge[12] = {0, 8, 64, 200, ((size_t)1 << 31) + 8, ((si
 static constexpr size_t kProbe = 4096;  // blocks larger than 2*kProbe are written / checked at both ends only
 static size_t al8(size_t x) { return (x + 7) & ~(size_t)7; }
 
-enum Cfg { FAILING_BASE = 12, HUGE_REQUESTS = 11, DEFAULT_BASE = 0, OWN_BASE = 1, USERBUF_EXACT = 2, USERBUF_8 = 3, USERBUF_64 = 4, USERBUF_MISALIGNED = 5, USERBUF_NOBASE = 6, USERBUF_ODD69 = 7, CHUNK_ODD100 = 8, USERBUF_MIS1 = 9, USERBUF_MIS3 = 10 };
+enum Cfg { MANY_OWNERS = 13, FAILING_BASE = 12, HUGE_REQUESTS = 11, DEFAULT_BASE = 0, OWN_BASE = 1, USERBUF_EXACT = 2, USERBUF_8 = 3, USERBUF_64 = 4, USERBUF_MISALIGNED = 5, USERBUF_NOBASE = 6, USERBUF_ODD69 = 7, CHUNK_ODD100 = 8, USERBUF_MIS1 = 9, USERBUF_MIS3 = 10 };
 
 template <class Policy, int CFG>
 struct AllocSim {
@@ -152,6 +152,13 @@ struct AllocSim {
     const size_t hdr = Pool::SIZEOF_SHARED_DATA + Pool::SIZEOF_CHUNK_HEADER;
     switch (CFG) {
       case DEFAULT_BASE: case HUGE_REQUESTS: case FAILING_BASE: h[0] = new Pool(kChunk, &base); break;
+      case MANY_OWNERS:
+        // non-initial state: the pool already has 2^32 - 2 owners that the explorer does not hold (their handles would be
+        // 2^32 - 2 real copies; the owner count is a private field, set here directly). Copies made by the explorer take
+        // the count across 2^32; no owner the explorer destroys is ever the last one.
+        h[0] = new Pool(kChunk, &base);
+        h[0]->shared_->refcount = (decltype(h[0]->shared_->refcount))(((uint64_t)1 << 32) - 1);
+        break;
       case OWN_BASE: h[0] = new Pool(kChunk); break;
       case USERBUF_EXACT: ub_begin = userbuf; ub_len = hdr; h[0] = new Pool(ub_begin, ub_len, kChunk, &base); break;
       case USERBUF_8: ub_begin = userbuf; ub_len = hdr + 8; h[0] = new Pool(ub_begin, ub_len, kChunk, &base); break;
@@ -313,7 +320,7 @@ struct AllocSim {
       for (int i = 0; i < 3; i++)
         for (int j = 0; j < 3; j++)
           if (hstate[i] == 1 && hstate[j] == 1 && !(*h[i] == *h[j])) ctx.violation("copies_not_equal", "alloc_copies_not_equal", tr, "handles %d and %d do not compare equal although they are copies", i, j);
-      if (h[fa]->Shared() != (alive_count() > 1)) ctx.violation("shared_flag", "alloc_shared_flag", tr, "Shared()=%d with %d live copies", (int)h[fa]->Shared(), alive_count());
+      if (h[fa]->Shared() != (alive_count() > 1 || CFG == MANY_OWNERS)) ctx.violation("shared_flag", "alloc_shared_flag", tr, "Shared()=%d with %d live copies", (int)h[fa]->Shared(), alive_count());
     }
   }
   void new_block(char* p, size_t size, vr::Ctx& ctx, const std::string& tr, const char* how) {
@@ -460,7 +467,7 @@ struct AllocSim {
     } else if (op == 88) {
       int la = last_alive();
       size_t chunks_before = BL().live.size();
-      bool was_last = alive_count() == 1;
+      bool was_last = alive_count() == 1 && CFG != MANY_OWNERS;
       delete h[la];
       h[la] = nullptr;
       hstate[la] = 0;
@@ -596,6 +603,8 @@ int main(int argc, char** argv) {
   // the base allocator refuses a chunk at any point of the history; the pool must stay consistent and usable
   explore<AllocSim<SimpleChunkPolicy, FAILING_BASE>>(R, "A_simple_failing_base", d_side, extra, states, trans, args, rrc);
   explore<AllocSim<AdaptiveChunkPolicy, FAILING_BASE>>(R, "A_adaptive_failing_base", d_side, extra, states, trans, args, rrc);
+  // an owner count just below 2^32 (state injection): copying and destroying handles must never release the pool
+  explore<AllocSim<SimpleChunkPolicy, MANY_OWNERS>>(R, "A_simple_2pow32_owners", d_side, extra, states, trans, args, rrc);
   // requests of 2^31, 2^32 +- a few bytes, 2^33 (chunks are address space only)
   explore<AllocSim<SimpleChunkPolicy, HUGE_REQUESTS>>(R, "A_simple_huge", d_side, extra, states, trans, args, rrc);
   explore<AllocSim<AdaptiveChunkPolicy, HUGE_REQUESTS>>(R, "A_adaptive_huge", d_side, extra, states, trans, args, rrc);
